@@ -13,7 +13,7 @@
 (* the concrete names, values (shape ids) and Go fixtures (fx ids) are     *)
 (* functions of the kind, the position and the length, so that every shape *)
 (* and fixture occurs.  The harness owns one Go value per shape id and one *)
-(* Go function per fx id; what they ARE is stated here (ShapeValue, FxSig).*)
+(* Go function per fx id; what they ARE is stated here (ShapeValOf, FxSig).*)
 (***************************************************************************)
 EXTENDS FPOptions, Json
 
@@ -38,10 +38,11 @@ Pick(seq, x) == seq[(x % Len(seq)) + 1]
 (* first), so the recursive validation is exercised at every position and not *)
 (* only at the end of a collection.  Ids: "bad-FML", "nil-M", ...             *)
 Letters == <<"F", "M", "L">>
-PathSeq ==
-  [k \in 1..3 |-> <<Letters[k]>>]
-  \o [k \in 1..9 |-> <<Letters[((k - 1) \div 3) + 1], Letters[((k - 1) % 3) + 1]>>]
-  \o [k \in 1..27 |-> <<Letters[((k - 1) \div 9) + 1], Letters[(((k - 1) \div 3) % 3) + 1], Letters[((k - 1) % 3) + 1]>>]
+NPaths  == 39
+PathOf(n) ==      \* n in 1..39
+  IF n <= 3 THEN <<Letters[n]>>
+  ELSE IF n <= 12 THEN <<Letters[((n - 4) \div 3) + 1], Letters[((n - 4) % 3) + 1]>>
+  ELSE <<Letters[((n - 13) \div 9) + 1], Letters[(((n - 13) \div 3) % 3) + 1], Letters[((n - 13) % 3) + 1]>>
 RECURSIVE PathStr(_)
 PathStr(p) == IF Len(p) = 0 THEN "" ELSE Head(p) \o PathStr(Tail(p))
 Good1 == VLeaf(I(1))
@@ -52,8 +53,11 @@ Wrap(inner, pos) ==
     [] pos = "L" -> VColl(<<Good1, Good2, inner>>)
 RECURSIVE Build(_, _)
 Build(leaf, p) == IF Len(p) = 0 THEN leaf ELSE Wrap(Build(leaf, Tail(p)), Head(p))
-BadShapes == <<"badTop">> \o [k \in 1..Len(PathSeq) |-> "bad-" \o PathStr(PathSeq[k])]
-NilShapes == <<"nilTop">> \o [k \in 1..Len(PathSeq) |-> "nil-" \o PathStr(PathSeq[k])]
+(* a shape is [shape (id), leaf ("" | "bad" | "nil"), path]; x selects one of the 40 shapes of a kind *)
+Shape(id) == [shape |-> id, leaf |-> "", path |-> <<>>]
+GenShape(leaf, top, x) ==
+  LET n == x % (NPaths + 1)
+  IN IF n = 0 THEN Shape(top) ELSE [shape |-> leaf \o "-" \o PathStr(PathOf(n)), leaf |-> leaf, path |-> PathOf(n)]
 
 FixedShapes ==
   [int      |-> VLeaf(I(7)),
@@ -67,11 +71,10 @@ FixedShapes ==
    mixed    |-> VColl(<<VLeaf(NameEl(2)), VLeaf(I(3)), VLeaf(Family1)>>),
    badTop   |-> VBad,
    nilTop   |-> VNil]
-GenShapes ==
-  [id \in {BadShapes[k] : k \in 2..Len(BadShapes)} \cup {NilShapes[k] : k \in 2..Len(NilShapes)} |->
-     LET k == CHOOSE k \in 1..Len(PathSeq) : BadShapes[k + 1] = id \/ NilShapes[k + 1] = id
-     IN Build(IF BadShapes[k + 1] = id THEN VBad ELSE VNil, PathSeq[k])]
-ShapeValue == FixedShapes @@ GenShapes
+ShapeValOf(o) ==
+  IF o.leaf = "bad" THEN Build(VBad, o.path)
+  ELSE IF o.leaf = "nil" THEN Build(VNil, o.path)
+  ELSE FixedShapes[o.shape]
 
 (* the valid value supplied at position j of a list of length L: every shape occurs in a list whose options all succeed *)
 ValidAt == << <<"int">>,
@@ -98,14 +101,15 @@ Rank(ks, h) == IF h > Len(ks) THEN 0 ELSE KIdx[ks[h]] + 5 * Rank(ks, h + 1)
 
 EShape(ks, j) ==
   LET L == Len(ks)
-  IN CASE ks[j] = "valid"  -> ValidAt[L][j]
-       [] ks[j] = "dup"    -> ValidAt[L][(j % L) + 1]      \* another position's value, so an overwrite would show
-       [] ks[j] = "predef" -> ValidAt[L][j]
-       [] ks[j] = "unsup"  -> Pick(BadShapes, Rank(ks, 1) + j)
-       [] ks[j] = "nil"    -> Pick(NilShapes, Rank(ks, 1) + j)
+  IN CASE ks[j] = "valid"  -> Shape(ValidAt[L][j])
+       [] ks[j] = "dup"    -> Shape(ValidAt[L][(j % L) + 1])      \* another position's value, so an overwrite would show
+       [] ks[j] = "predef" -> Shape(ValidAt[L][j])
+       [] ks[j] = "unsup"  -> GenShape("bad", "badTop", Rank(ks, 1) + j)
+       [] ks[j] = "nil"    -> GenShape("nil", "nilTop", Rank(ks, 1) + j)
 
-EOpts(ks) == [j \in 1..Len(ks) |-> [name |-> EName(ks, j), shape |-> EShape(ks, j)]]
-EConc(o)  == [name |-> o.name, val |-> ShapeValue[o.shape]]
+EOpts(ks) == [j \in 1..Len(ks) |->
+                LET sh == EShape(ks, j) IN [name |-> EName(ks, j), shape |-> sh.shape, leaf |-> sh.leaf, path |-> sh.path]]
+EConc(o)  == [name |-> o.name, val |-> ShapeValOf(o)]
 EConcAll(os) == [j \in 1..Len(os) |-> EConc(os[j])]
 
 (* ------------------------------------------------------------------------ *)
@@ -189,7 +193,8 @@ P(fk, target, focus, ret, prog) ==
 
 (* The fixed options of the other side. *)
 ProbeOpts == <<[name |-> "pr", fx |-> "well1"]>>
-FixedVars == <<[name |-> "s", shape |-> "str"], [name |-> "k", shape |-> "int"]>>
+FixedVars == <<[name |-> "s", shape |-> "str", leaf |-> "", path |-> <<>>],
+               [name |-> "k", shape |-> "int", leaf |-> "", path |-> <<>>]>>
 
 (* --- programs of an Evaluate list ---------------------------------------- *)
 FirstShape(os, x) ==
@@ -217,9 +222,9 @@ RECURSIVE EFailTag(_, _)
 EFailTag(os, j) ==
   IF j > Len(os) THEN ""
   ELSE LET o == os[j]
-           t == IF HasBadLeaf(ShapeValue[o.shape]) THEN o.shape
+           t == IF HasBadLeaf(ShapeValOf(o)) THEN o.shape
                 ELSE IF o.name \in Predefined THEN "predefined"
-                ELSE IF \E h \in 1..(j - 1) : os[h].name = o.name /\ ~HasBadLeaf(ShapeValue[os[h].shape]) THEN "duplicate"
+                ELSE IF \E h \in 1..(j - 1) : os[h].name = o.name /\ ~HasBadLeaf(ShapeValOf(os[h])) THEN "duplicate"
                 ELSE ""
        IN (IF t = "" THEN "" ELSE "+" \o t) \o EFailTag(os, j + 1)
 
